@@ -125,6 +125,11 @@ class Check:
         self.kf = load_known_findings()
         self._distinct = set()
         self.work = common.workdir(prop + "_" + self.tier)
+        # share of the extended catalogue this run draws from (see mbt/catalogue.py gen_tla)
+        stride = int(os.environ.get("VERIF_CAT_STRIDE_" + self.tier.upper(), "6" if self.tier == "quick" else "1"))
+        os.environ["VERIF_CAT_STRIDE"] = str(stride)
+        os.environ["VERIF_CAT_PHASE"] = str(self.seed % stride)
+        self.cov["catalogue"] = {"extended_stride": stride, "phase": self.seed % stride}
 
     # ------------------------------------------------------------------ accounting
     def phase(self, name):
